@@ -42,9 +42,10 @@ theorem nth_corr (a v : List ℂ) (h : a.length = v.length) {m : ℕ} (hm : m < 
     simp
   · rw [if_neg hc]
     symm
-    refine sum_eq_zero fun i hi => ?_
+    apply sum_eq_zero
+    intro i hi
     have := mem_range.mp hi
-    rw [if_neg]; simp
+    rw [if_neg]
     omega
 
 /-- lag reversal in the normal form -/
